@@ -502,6 +502,132 @@ pub fn glyphs() -> Vec<HGlyph> {
     }
 
     let geo = &geos[0];
+    // F13 vector state × consumer: after every (projection setter, freedom setter) pair — with diagonal,
+    // horizontal, vertical and degenerate (coincident points) reference lines, the freedom vector equal
+    // to, different from and perpendicular to the projection vector — each distance-reading / point-moving
+    // instruction is executed once and its effect left in the outline. Setup (under SVTCA[x]): points 2
+    // and 0 are rounded, so rp0 = rp1 = 0 has moved; rp2 = 2.
+    {
+        const SPVTCA_Y: u8 = 0x02;
+        const SPVTCA_X: u8 = 0x03;
+        const SFVTCA_Y: u8 = 0x04;
+        const SFVTCA_X: u8 = 0x05;
+        let lines: [(&str, i32, i32); 4] = [
+            ("diagonal", 0, 2),
+            ("horizontal", 0, 1),
+            ("vertical", 1, 2),
+            ("degenerate", 1, 1),
+        ];
+        // projection setters: (class name, code)
+        let mut psetters: Vec<(String, Vec<u8>)> = vec![
+            ("SVTCA".into(), vec![SVTCA_X]),
+            ("SVTCA".into(), vec![SVTCA_Y]),
+            ("SPVTCA".into(), vec![SPVTCA_X]),
+            ("SPVTCA".into(), vec![SPVTCA_Y]),
+        ];
+        for (op, name) in [(SPVTL, "SPVTL"), (SDPVTL, "SDPVTL")] {
+            for a in 0..2u8 {
+                for (_, p1, p2) in lines {
+                    let mut c = vec![];
+                    push(&mut c, &[p1, p2]);
+                    c.push(op + a);
+                    psetters.push((name.into(), c));
+                }
+            }
+        }
+        for (x, y) in [(0x2D41, 0x2D41), (0x3B21, -0x187E), (0, 0x4000)] {
+            let mut c = vec![];
+            push(&mut c, &[x, y]);
+            c.push(SPVFS);
+            psetters.push(("SPVFS".into(), c));
+        }
+        // freedom setters
+        let mut fsetters: Vec<Vec<u8>> = vec![
+            vec![],
+            vec![SFVTPV],
+            vec![SFVTCA_X],
+            vec![SFVTCA_Y],
+        ];
+        for (a, p1, p2) in [(0u8, 0, 2), (1, 0, 2), (0, 1, 1)] {
+            let mut c = vec![];
+            push(&mut c, &[p1, p2]);
+            c.push(SFVTL + a);
+            fsetters.push(c);
+        }
+        {
+            let mut c = vec![];
+            push(&mut c, &[0x2D41, 0x2D41]);
+            c.push(SFVFS);
+            fsetters.push(c);
+        }
+        // consumers: (class name, code); the moved point is 3
+        let mut consumers: Vec<(String, Vec<u8>)> = vec![];
+        for f in [0x00u8, 0x04, 0x08, 0x0C, 0x1D] {
+            let mut c = vec![];
+            push(&mut c, &[3]);
+            c.push(MDRP + f);
+            consumers.push(("MDRP".into(), c));
+        }
+        for f in [0x00u8, 0x04, 0x0C] {
+            let mut c = vec![];
+            push(&mut c, &[3, 12]);
+            c.push(MIRP + f);
+            consumers.push(("MIRP".into(), c));
+        }
+        {
+            let mut c = vec![];
+            push(&mut c, &[3]);
+            c.push(IP);
+            consumers.push(("IP".into(), c));
+            for a in 0..2u8 {
+                let mut c = vec![];
+                push(&mut c, &[3, 3]);
+                c.push(GC + a);
+                c.push(SCFS);
+                consumers.push(("GC+SCFS".into(), c));
+                let mut c = vec![];
+                touch(&mut c, 3);
+                push(&mut c, &[3, 0, 2]);
+                c.push(MD + a);
+                c.push(SHPIX);
+                consumers.push(("MD".into(), c));
+                let mut c = vec![];
+                push(&mut c, &[3]);
+                c.push(SHP + a);
+                consumers.push(("SHP".into(), c));
+            }
+            let mut c = vec![];
+            push(&mut c, &[3, 33]);
+            c.push(MSIRP);
+            consumers.push(("MSIRP".into(), c));
+            let mut c = vec![];
+            push(&mut c, &[3]);
+            c.push(ALIGNRP);
+            consumers.push(("ALIGNRP".into(), c));
+            let mut c = vec![];
+            push(&mut c, &[3, 0, 2, 1, 4]);
+            c.push(ISECT);
+            consumers.push(("ISECT".into(), c));
+        }
+        for (pname, pcode) in &psetters {
+            for fcode in &fsetters {
+                for (cname, ccode) in &consumers {
+                    let mut c = vec![SVTCA_X];
+                    push(&mut c, &[2]);
+                    c.push(MDAP + 1);
+                    push(&mut c, &[0]);
+                    c.push(MDAP + 1);
+                    push(&mut c, &[2]);
+                    c.push(SRP2);
+                    c.extend_from_slice(pcode);
+                    c.extend_from_slice(fcode);
+                    c.extend_from_slice(ccode);
+                    iup(&mut c);
+                    add(&format!("{pname} then {cname}"), geo, c);
+                }
+            }
+        }
+    }
     // F2 SROUND / S45ROUND: the complete parameter byte × axis (point 2, MDAP[1])
     // (on the first geometry and on its mirror image, so that negative distances are rounded too)
     let mirrored: Vec<Pt> = geo.iter().map(|(x, y, on)| (-*x, -*y, *on)).collect();
